@@ -82,7 +82,9 @@ class Axis:
             return False
 
         for neighbour in self.neighbours:
-            if neighbour.is_defined:
+            # a neighbour can be defined without holding any chops (all of its wires
+            # were copied from coincident wires); there is nothing to copy from it
+            if neighbour.is_defined and len(neighbour.wires.chops) > 0:
                 if neighbour.is_aligned(self):
                     for chop in neighbour.wires.chops:
                         self.wires.add_chop(chop.copy_preserving())
